@@ -208,7 +208,9 @@ def chkStep (J : Judge) (a : CallArgs) (st : ChkSt) (t : Pos × Option (Ty × Ty
   match t.2 with
   | none => st
   | some (e, v) =>
-    if J.acc e v then { st with usedAny := st.usedAny || J.used e v }
+    -- `if param_used_any and position is not DEFAULT` (signature.py:1304‥1306, /repo commit 41847cf):
+    -- an empty `*args` pack was not provided by the caller and cannot make the match one "due to Any"
+    if J.acc e v then { st with usedAny := st.usedAny || (J.used e v && !(t.1 == Pos.dflt)) }
     else if st.isOv then
       match decompose J e v with
       | some (u, r) =>
